@@ -6,7 +6,7 @@ use crate::scenario::*;
 
 pub fn key_pool(r: &mut Rng) -> Vec<Vec<u8>> {
     let all: Vec<Vec<u8>> = vec![b"k1".to_vec(), b"k2".to_vec(), b"k3".to_vec(), b"user:1".to_vec(), b"".to_vec(), vec![0xff, 0x00, b'k'], b"a\r\nb".to_vec(),
-        b"key with space".to_vec(), b"k*".to_vec(), b"[x]".to_vec(), b"K1".to_vec(), b"counter".to_vec()];
+        b"key with space".to_vec(), b"k*".to_vec(), b"[x]".to_vec(), b"K1".to_vec(), b"counter".to_vec(), vec![0xfe], vec![0xff], vec![0xc3, 0xa9], b"ab".to_vec()];
     let n = r.range(4, 9) as usize;
     let mut out = vec![b"k1".to_vec(), b"k2".to_vec()];
     while out.len() < n { let k = r.pick(&all).clone(); if !out.contains(&k) { out.push(k); } }
@@ -64,7 +64,7 @@ pub fn gen_cmd(r: &mut Rng, keys: &[Vec<u8>], vals: &[Vec<u8>]) -> Vec<B> {
         15 => vec![b("TYPE"), k(r, keys)],
         16 => vec![b("RENAME"), k(r, keys), k(r, keys)],
         17 => vec![b("RENAMENX"), k(r, keys), k(r, keys)],
-        18 => vec![b("KEYS"), b(*r.pick(&["*", "k*", "k?", "[kK]1", "*1", "k[1-2]", "[^k]*", "\\k1", "", "user:*", "k\\*", "*\r\n*"]))],
+        18 => if r.chance(1, 4) { vec![b("KEYS"), B(r.pick(&[&b"\xff"[..], b"?", b"??", b"\xc3?", b"[\xfe-\xff]", b"\xfe*", b"*\xa9"]).to_vec())] } else { vec![b("KEYS"), b(*r.pick(&["*", "k*", "k?", "[kK]1", "*1", "k[1-2]", "[^k]*", "\\k1", "", "user:*", "k\\*", "*\r\n*"]))] },
         19 => vec![b("DBSIZE")],
         20 => vec![b("RANDOMKEY")],
         21 => vec![b(*r.pick(&["FLUSHDB", "FLUSHALL"]))],
